@@ -418,6 +418,11 @@ func elemArgs(thorough bool) []ref.Bits {
 			add(false, new(big.Int).Exp(big.NewInt(5), big.NewInt(int64(n)), nil), -n) // 2^-n
 		}
 	}
+	// around |x| = 32767*ln(10) = 75445.6, where the result's decimal exponent passes 2^15
+	for _, n := range []int64{75000, 75400, 75440, 75445, 75446, 75450, 75500, 75600, 76000, 80000, 99999, 108846, 108847, 32767, 32768} {
+		add(false, big.NewInt(n), 0)
+		add(true, big.NewInt(n), 0)
+	}
 	for _, n := range []int64{20414, 20415, 20516, 20517, 20000, 14149, 14150, 14220, 14221, 14222, 6145, 6146, 6176, 6177} {
 		add(false, big.NewInt(n), 0)
 		add(true, big.NewInt(n), 0)
